@@ -6,6 +6,7 @@ import (
 	"context"
 	"errors"
 	"fmt"
+	"math"
 	"strings"
 	"time"
 
@@ -22,6 +23,7 @@ const c20Recover = time.Second
 // c20model is the envelope of DESIGN.md appendix A.5.
 type c20model struct {
 	threshold int
+	recover   int64 // recovery time, ns
 	streak    int   // failures of forwarded calls since the last success
 	last      int64 // time of the latest failure (ns of fake time)
 	hasLast   bool
@@ -34,7 +36,7 @@ func (m *c20model) decide(now int64) (mustForward, mustReject bool) {
 	if m.streak <= m.threshold {
 		return true, false
 	}
-	if !m.hasLast || now-m.last >= int64(c20Recover) {
+	if !m.hasLast || now-m.last >= m.recover {
 		m.budget = m.threshold + 1
 		return true, false
 	}
@@ -71,23 +73,48 @@ type c20call struct {
 func scenC20(r *Run) {
 	mode := []string{"enumerate", "enumerate", "long", "concurrent", "enumerate", "concurrent"}[r.Index%6]
 	sub := r.Index / 6
+	// enumerate runs count through their own index, so that consecutive enumerate runs cover consecutive blocks
+	enumIdx := sub*3 + map[int]int{0: 0, 1: 1, 4: 2}[r.Index%6]
 	if v, ok := r.Opt["mode"]; ok {
 		mode = v
 		sub = r.Index
+		enumIdx = r.Index
 	}
 	r.Param("mode", mode)
 	RegisterKind("mock")
 	sim := r.StartSim(verifsim.Config{IdleCap: 1000 * time.Hour, StepCap: 400000}, "rpc/plugins/circuitbreaker")
 	thresholds := []int{0, 1, 2, 5}
-	threshold := thresholds[sub%4]
-	sub /= 4
-	withMock := sub%2 == 1
-	sub /= 2
+	// recovery time: ordinary, "effectively zero" and "effectively infinite"
+	recovers := []time.Duration{c20Recover, time.Nanosecond, time.Duration(math.MaxInt64)}
+	var threshold int
+	var withMock bool
+	rec := c20Recover
+	deep := true // enumerate: the ordinary recovery time gets the deep enumeration, the two extremes a shallow one
+	if mode == "enumerate" {
+		if enumIdx%3 == 2 {
+			deep = false
+			e := enumIdx / 3
+			threshold, withMock, rec = thresholds[e%4], (e/4)%2 == 1, recovers[1+(e/8)%2]
+			sub = e / 16
+		} else {
+			e := enumIdx/3*2 + enumIdx%3
+			threshold, withMock = thresholds[e%4], (e/4)%2 == 1
+			sub = e / 8
+		}
+	} else {
+		threshold = thresholds[sub%4]
+		sub /= 4
+		withMock = sub%2 == 1
+		sub /= 2
+		rec = []time.Duration{c20Recover, c20Recover, c20Recover, recovers[1], recovers[2]}[sub%5]
+		sub /= 5
+	}
 	r.Param("threshold", threshold)
 	r.Param("mock_service", withMock)
+	r.Param("recovery", rec.String())
 	downstream := 0
 	mkClient := func() (*core.Client, *circuitbreaker.CircuitBreaker) {
-		opts := []circuitbreaker.Option{circuitbreaker.WithThreshold(uint64(threshold)), circuitbreaker.WithRecoverTime(c20Recover)}
+		opts := []circuitbreaker.Option{circuitbreaker.WithThreshold(uint64(threshold)), circuitbreaker.WithRecoverTime(rec)}
 		if withMock {
 			opts = append(opts, circuitbreaker.WithMockService(func(ctx context.Context, name string, args []interface{}) ([]interface{}, error) {
 				return []interface{}{"from-mock"}, nil
@@ -136,11 +163,17 @@ func scenC20(r *Run) {
 		return err == circuitbreaker.ErrBreaker || (err != nil && err.Error() == circuitbreaker.ErrBreaker.Error())
 	}
 	// the advances a script may make between calls, relative to the recovery time
-	advances := []time.Duration{0, c20Recover - 1, c20Recover, 2 * c20Recover, c20Recover / 2}
+	advances := []time.Duration{0, rec - 1, rec, 2 * rec, rec / 2}
+	switch rec {
+	case time.Nanosecond:
+		advances = []time.Duration{0, time.Nanosecond, 2 * time.Nanosecond, time.Second, time.Microsecond}
+	case time.Duration(math.MaxInt64):
+		advances = []time.Duration{0, time.Second, time.Hour, 500 * time.Hour, 24 * time.Hour}
+	}
 	runScript := func(script []int) bool {
 		// script element = outcome*len(advances) + advance
 		client, _ := mkClient()
-		m := &c20model{threshold: threshold}
+		m := &c20model{threshold: threshold, recover: int64(rec)}
 		var hist []string
 		for i, s := range script {
 			adv := advances[s%len(advances)]
@@ -172,7 +205,7 @@ func scenC20(r *Run) {
 				cls = "forwarded-failure-reported-as-success"
 			}
 			if cls != "" {
-				r.Fail("C20:"+cls+":"+mode, "threshold %d, recovery %v, mock service %v; history (advance outcome->decision): %v; model before the last call: %d consecutive failures, budget %d; result %v err %v", threshold, c20Recover, withMock, hist, m.streak, m.budget, res, err)
+				r.Fail("C20:"+cls+":"+mode, "threshold %d, recovery %v, mock service %v; history (advance outcome->decision): %v; model before the last call: %d consecutive failures, budget %d; result %v err %v", threshold, rec, withMock, hist, m.streak, m.budget, res, err)
 				return false
 			}
 			if fw {
@@ -188,6 +221,9 @@ func scenC20(r *Run) {
 		// mixed-radix index; this run covers a block
 		const base = 12
 		maxLen := 6
+		if !deep {
+			maxLen = 4
+		}
 		per := 250
 		total := 0
 		pow := 1
@@ -239,19 +275,19 @@ func scenC20(r *Run) {
 		})
 		sim.Drive(func() bool { return done })
 	case "concurrent":
-		c20Concurrent(r, sim, threshold, withMock, mkClient, invoke, rejectedOK)
+		c20Concurrent(r, sim, threshold, rec, withMock, mkClient, invoke, rejectedOK)
 	}
 }
 
 type c20op struct {
-	kind     string // enter | exit
-	now      int64
-	forward  bool
-	success  bool
-	call     int
+	kind    string // enter | exit
+	now     int64
+	forward bool
+	success bool
+	call    int
 }
 
-func c20Concurrent(r *Run, sim *verifsim.Sim, threshold int, withMock bool,
+func c20Concurrent(r *Run, sim *verifsim.Sim, threshold int, rec time.Duration, withMock bool,
 	mkClient func() (*core.Client, *circuitbreaker.CircuitBreaker),
 	invoke func(*core.Client, *c20call) ([]interface{}, error), rejectedOK func([]interface{}, error) bool) {
 	client, _ := mkClient()
@@ -267,7 +303,11 @@ func c20Concurrent(r *Run, sim *verifsim.Sim, threshold int, withMock bool,
 		for i := 0; i < n; i++ {
 			id++
 			mine = append(mine, &c20call{id: id, outcome: "SEEPE"[r.Plan(5)], service: r.PlanDur(0, 0, time.Millisecond, c20Recover/2, c20Recover)})
-			gaps = append(gaps, r.PlanDur(0, 0, time.Millisecond, c20Recover/2, c20Recover, 2*c20Recover))
+			if rec == c20Recover {
+				gaps = append(gaps, r.PlanDur(0, 0, time.Millisecond, c20Recover/2, c20Recover, 2*c20Recover))
+			} else {
+				gaps = append(gaps, r.PlanDur(0, 0, time.Nanosecond, time.Millisecond, time.Hour))
+			}
 		}
 		sim.Task(fmt.Sprintf("caller%d", t), func() {
 			defer func() { fin++ }()
@@ -311,7 +351,7 @@ func c20Concurrent(r *Run, sim *verifsim.Sim, threshold int, withMock bool,
 		Step: func(st, input, output interface{}) (bool, interface{}) {
 			s := st.(state)
 			in := input.(c20op)
-			m := &c20model{threshold: threshold, streak: s.streak, budget: s.budget, last: s.last, hasLast: s.hasLast}
+			m := &c20model{threshold: threshold, recover: int64(rec), streak: s.streak, budget: s.budget, last: s.last, hasLast: s.hasLast}
 			if in.kind == "enter" {
 				mustF, mustR := m.decide(in.now)
 				fw := output.(bool)
@@ -341,6 +381,6 @@ func c20Concurrent(r *Run, sim *verifsim.Sim, threshold int, withMock bool,
 				d = append(d, fmt.Sprintf("[%d,%d] call %d ends at t=%v: success=%v", o.Call, o.Return, in.call, time.Duration(in.now), in.success))
 			}
 		}
-		r.Fail("C20:not-linearizable:concurrent", "threshold %d, recovery %v: no order of the overlapping calls' entries and exits fits the breaker's must-forward / must-reject envelope:\n %s", threshold, c20Recover, strings.Join(d, "\n "))
+		r.Fail("C20:not-linearizable:concurrent", "threshold %d, recovery %v: no order of the overlapping calls' entries and exits fits the breaker's must-forward / must-reject envelope:\n %s", threshold, rec, strings.Join(d, "\n "))
 	}
 }
